@@ -3,9 +3,13 @@
 package document
 
 import (
+	"fmt"
+	"io"
 	"math"
+	"os"
 
 	pr "github.com/benoitkugler/webrender/css/properties"
+	"github.com/benoitkugler/webrender/logger"
 	mt "github.com/benoitkugler/webrender/matrix"
 )
 
@@ -309,3 +313,63 @@ func vTransOK(t pr.SDimensions) bool {
 //@   props C16
 //@   modifies anything
 //@   call DrawWithOpacity#1 assert[group-opacity] arg1 == opacity && arg2 == group && arg0 == ctx.dst
+
+// C14 (every number passed to the backend is finite): the shaded colours of inset / outset / ridge / groove
+// borders go through HSV. No division of the conversion has a zero divisor, for ANY colour (rgb() components
+// may lie outside [0, 1]: rgb(0, 0, -10) is kept as written): the hue divides by the spread only when it is not
+// zero, and the saturation divides by the largest component only when that component is not zero.
+//@ func rgb2hsv
+//@   props C14
+//@   finite
+//@   modifies nothing
+//@   ensures[value-is-the-largest-component] c >= red && c >= green && c >= blue && (c == red || c == green || c == blue)
+//@   ensures[grey-has-no-saturation] red == green && green == blue ==> s == 0 && h == 0
+//@   ensures[saturation-range] 0 <= red && 0 <= green && 0 <= blue ==> 0 <= s && s <= 1
+//@ func darken
+//@   props C14
+//@   finite
+//@   modifies anything
+//@ func lighten
+//@   props C14
+//@   finite
+//@   modifies anything
+//@ func hsv2rgb
+//@   props C14
+//@   finite
+//@   modifies anything
+
+// bounded stand-in (C14): the shaded colours are finite for every colour, out-of-range components included
+// (hsv2rgb multiplies what rgb2hsv returns: an infinite saturation times a zero value is NaN). Every colour
+// over seven values per component x the five border styles that shade x the four sides.
+func vShadedColours() (n int, fails []string) {
+	logger.WarningLogger.SetOutput(io.Discard)
+	defer logger.WarningLogger.SetOutput(os.Stdout)
+	vals := []fl{-0.5, -0.04, 0, 0.3, 1, 1.2, 255}
+	finite := func(c Color) bool {
+		for _, v := range []fl{c.R, c.G, c.B, c.A} {
+			if math.IsNaN(float64(v)) || math.IsInf(float64(v), 0) {
+				return false
+			}
+		}
+		return true
+	}
+	for _, r := range vals {
+		for _, g := range vals {
+			for _, b := range vals {
+				for _, style := range []pr.String{"inset", "outset", "ridge", "groove", "solid"} {
+					for _, side := range []pr.KnownProp{top, right, bottom, left} {
+						n++
+						cs := styledColor(style, Color{R: r, G: g, B: b, A: 1}, side)
+						if (!finite(cs[0]) || !finite(cs[1])) && len(fails) < 5 {
+							fails = append(fails, fmt.Sprintf("styledColor(%s, rgb(%v %v %v), side %d) = %v", style, r, g, b, side, cs))
+						}
+					}
+				}
+			}
+		}
+	}
+	return n, fails
+}
+
+//@ bounded vShadedColours styledColor on every colour over seven values per component (negative and above 1 included) x five border styles x four sides: every component of the shaded colours is finite
+//@   props C14
